@@ -1,7 +1,8 @@
 PROPERTY = {
     'id': 'C03',
-    'contract_modules': ['checker'],
-    'functions': ['xdoctest.checker:_strip_exception_details',
+    'contract_modules': ['doctest_example', 'util_stream', 'checker', 'doctest_part', 'runner'],
+    'functions': ['xdoctest.doctest_example:DocTest.run',
+                  'xdoctest.checker:_strip_exception_details',
                   'xdoctest.checker:check_exception',
                   'xdoctest.checker:extract_exc_want',
                   'xdoctest.checker:check_output'],
@@ -9,7 +10,10 @@ PROPERTY = {
         'P': ['_strip_exception_details(msg) == S.exc_name(msg): first line only, up to the first colon, after the last dot',
               'check_exception: want without traceback shape => the live exception is re-raised, never a normal return; '
               'otherwise returns True iff S.exc_match (final line matches, or IGNORE_EXCEPTION_DETAIL and the names match), '
-              'else raises GotWantException'],
+              'else raises GotWantException',
+              'run: an Exception raised by a part without a want is recorded (exc_info[1] IS that exception) and ends the loop; with a want '
+              'check_exception is consulted exactly once with the LAST line of format_exception_only of that exception and the part\'s want; '
+              'after an expected exception the loop goes on with the next part'],
         'T': ['extract_exc_want / _EXCEPTION_RE (assumed contract; regex outside the decidable fragment)',
               'check_output as the relation S.match (its own contract is C05)',
               'traceback.format_exception_only'],
